@@ -1,9 +1,13 @@
 /-
   C01 — The node graph stays a well-formed tree after any mutation history.
-  Property theorems only; helper lemmas live in Nutree/Lemmas.
+  Property theorems only; helper lemmas live in Nutree/Lemmas
+  (Prim, Registry, WFBool, WFAdd, WFRemove).
 -/
 import Nutree.Model.Ops
 import Nutree.Spec.WF
+import Nutree.Lemmas.WFBool
+import Nutree.Lemmas.WFAdd
+import Nutree.Lemmas.WFRemove
 namespace Nutree.C01
 open Nutree T
 
@@ -11,13 +15,191 @@ open Nutree T
 theorem WF_init : WF ({} : Tree) := by
   refine ⟨rfl, ?_, ?_, ⟨?_, ?_, ?_, ?_⟩, ?_⟩
   · simp [IdsNodup, mkRoot, T.flat, T.flatL]
-  · simp [RegistryExact, mkRoot, T.flatL]
+  · simp [RegistryExact, mkRoot]
   · simp
   · intro e h; simp at h
   · intro e h; simp at h
-  · intro d n; simp [mkRoot, T.flatL]
+  · intro d n; simp [mkRoot]
   · intro x hx
     simp [mkRoot, T.flat, T.flatL] at hx
     subst hx; simp
+
+/-- the decidable check evaluated by the driver on observed states decides well-formedness. -/
+theorem wfB_iff (t : Tree) : wfB t = true ↔ WF t := by
+  unfold wfB
+  simp only [Bool.and_eq_true, beq_iff_eq, idsNodupB_iff, registryExactB_iff, indexExactB_iff,
+    sibUniqueB_iff]
+  exact ⟨fun ⟨⟨⟨⟨h1, h2⟩, h3⟩, h4⟩, h5⟩ => ⟨h1, h2, h3, h4, h5⟩,
+    fun ⟨h1, h2, h3, h4, h5⟩ => ⟨⟨⟨⟨h1, h2⟩, h3⟩, h4⟩, h5⟩⟩
+
+/-- all node ids are below the fresh-id counter, and the counter is positive (0 is the system root) -/
+def Fresh (t : Tree) (next : NodeId) : Prop := 0 < next ∧ ∀ x ∈ T.flat t.root, x.id < next
+
+theorem Fresh.not_mem {t : Tree} {next : NodeId} (hf : Fresh t next) : next ∉ (T.flat t.root).map T.id := by
+  intro hm
+  obtain ⟨x, hx, hxn⟩ := mem_ids.1 hm
+  have := hf.2 x hx
+  rw [hxn] at this
+  exact Nat.lt_irrefl _ this
+
+/-- effect of add (C04), without the well-formedness hypotheses (they are not needed). -/
+theorem addData_effect' (t t' : Tree) (next parent : NodeId) (a : Atom) (before : Before)
+    (did? : Option DataId) (kind : Option String)
+    (hr : t.addData next parent a before did? kind = .ok t') :
+    ∃ p ins did, findT parent t.root = some p ∧
+      insertPosition p.kids (t.childrenNone parent p) before = .ok ins ∧
+      t'.root = modT parent (fun l => ins l (T.node { id := next, data := a, did := did, kind := if t.typed then some (kind.getD "child") else none } [])) t.root ∧
+      (did? = some did ∨ (did? = none ∧ t.calcId a = .ok did)) := by
+  obtain ⟨p, ins, did, t1, hp, hins, hdid, hreg, rfl⟩ := addData_ok hr
+  exact ⟨p, ins, did, hp, hins, by rw [register_root hreg]; rfl, hdid⟩
+
+set_option linter.unusedVariables false in
+/-- effect of add (C04): the new node is a leaf with the given data below `parent`, nothing else changes -/
+theorem addData_effect (t t' : Tree) (next parent : NodeId) (a : Atom) (before : Before)
+    (did? : Option DataId) (kind : Option String)
+    (h : WF t) (hf : Fresh t next) (hr : t.addData next parent a before did? kind = .ok t') :
+    ∃ p ins did, findT parent t.root = some p ∧
+      insertPosition p.kids (t.childrenNone parent p) before = .ok ins ∧
+      t'.root = modT parent (fun l => ins l (T.node { id := next, data := a, did := did, kind := if t.typed then some (kind.getD "child") else none } [])) t.root ∧
+      (did? = some did ∨ (did? = none ∧ t.calcId a = .ok did)) :=
+  addData_effect' t t' next parent a before did? kind hr
+
+/-- adding a data node keeps the state well-formed and the id counter fresh. -/
+theorem addData_WF (t t' : Tree) (next parent : NodeId) (a : Atom) (before : Before)
+    (did? : Option DataId) (kind : Option String)
+    (h : WF t) (hf : Fresh t next) (hr : t.addData next parent a before did? kind = .ok t') :
+    WF t' ∧ Fresh t' (next + 1) := by
+  obtain ⟨p, ins, did, t1, hp, hins, _, hreg, rfl⟩ := addData_ok hr
+  have hg : ∀ ks, (ins ks (newNode t next a did kind)).Perm (newNode t next a did kind :: ks) :=
+    fun ks => insertPosition_perm hins ks _
+  have hsib : ∀ c ∈ p.kids, c.did ≠ did := by
+    intro c hc hcd
+    have := (register_unique_iff_sibling (nid := next) h hp).2 ⟨c, hc, hcd⟩
+    rw [hreg] at this; cases this
+  constructor
+  · have := WF_insert_leaf (i := { id := next, data := a, did := did, kind := if t.typed then some (kind.getD "child") else none })
+      (g := fun l => ins l (newNode t next a did kind)) h hp hf.not_mem (hg p.kids) hsib
+    refine WF.congr ?_ ?_ ?_ this
+    · show modT parent _ t1.root = modT parent _ t.root
+      rw [register_root hreg]
+    · show t1.byId = t.byId ++ [next]
+      exact register_byId hreg
+    · show t1.byData = addEntry t.byData did next
+      exact register_byData hreg
+  · refine ⟨Nat.succ_pos _, ?_⟩
+    intro x hx
+    change x ∈ flat (modT parent (fun l => ins l (newNode t next a did kind)) t1.root) at hx
+    rw [register_root hreg] at hx
+    rcases mem_ids_insert_leaf (n := newNode t next a did kind) hg rfl (mem_ids.2 ⟨x, hx, rfl⟩) with h1 | h1
+    · obtain ⟨y, hy, hyx⟩ := mem_ids.1 h1
+      have := hf.2 y hy
+      rw [hyx] at this
+      exact Nat.lt_succ_of_lt this
+    · have : x.id = next := h1
+      rw [this]; exact Nat.lt_succ_self _
+
+/-- refusal (C03): adding data whose id is already carried by a child of the target is refused with the uniqueness error -/
+theorem addData_refused (t : Tree) (next parent : NodeId) (a : Atom) (before : Before) (did : DataId)
+    (kind : Option String) (p : T) (ins : List T → T → List T)
+    (h : WF t) (hp : findT parent t.root = some p)
+    (hb : insertPosition p.kids (t.childrenNone parent p) before = .ok ins)
+    (hc : ∃ c ∈ p.kids, c.did = did) :
+    t.addData next parent a before (some did) kind = .error .unique := by
+  have hreg := (register_unique_iff_sibling (nid := next) h hp).2 hc
+  unfold Tree.addData
+  simp only [hp, hb, hreg]
+
+/-- `remove_children` keeps the state well-formed. -/
+theorem removeChildren_WF (t : Tree) (n : NodeId) (h : WF t) : WF (t.removeChildren n) := by
+  cases hx : findT n t.root with
+  | none => rw [removeChildren_of_none hx]; exact h
+  | some x =>
+    rw [removeChildren_eq hx]
+    exact WF_remove_kids h hx (iterPost_perm x) rfl rfl rfl
+
+/-- after `removeChildren n` the node `n` is a leaf with the same record, and its parent has the
+same identity as before. -/
+private theorem removeOne_setup {t : Tree} {n : NodeId} {x par : T} (h : WF t)
+    (hx : findT n t.root = some x) (hpar : findParent n t.root = some par) :
+    t.parentId n = some par.id ∧
+      findT n (t.removeChildren n).root = some (.node x.info []) ∧
+      findParent n (t.removeChildren n).root = some (modT n (fun _ => []) par) := by
+  have hN := h.idsN
+  have hxN := idsNodup_of_mem_flat hN (findT_some_mem hx)
+  have hnk : n ∉ idsL x.kids := by
+    have := id_not_mem_idsL_kids hxN
+    rwa [findT_some_id hx] at this
+  refine ⟨by unfold Tree.parentId; rw [hpar]; rfl, ?_, ?_⟩
+  · rw [removeChildren_root, findT_modT_self_of hx]
+  · rw [removeChildren_root, findParent_modT_of hN hx hnk (by simp), hpar]; rfl
+
+/-- plain `remove()` of one node keeps the state well-formed (also for `n = 0`, where the model
+does nothing). -/
+theorem removeOne_WF' (t : Tree) (n : NodeId) (h : WF t) : WF (t.removeOne n) := by
+  cases hx : findT n t.root with
+  | none => rw [removeOne_of_findT_none hx]; exact h
+  | some x =>
+    cases hpar : findParent n t.root with
+    | none =>
+      rw [removeOne_of_parent_none (by unfold Tree.parentId; rw [hpar]; rfl)]; exact h
+    | some par =>
+      obtain ⟨hp, hx1, hpar1⟩ := removeOne_setup h hx hpar
+      rw [removeOne_eq hx hp]
+      refine WF_remove_leaf (removeChildren_WF t n h) hx1 rfl hpar1 ?_ rfl rfl
+      simp only [unregister_root, modT_id]
+
+set_option linter.unusedVariables false in
+/-- plain `remove()` of one node keeps the state well-formed. -/
+theorem removeOne_WF (t : Tree) (n : NodeId) (h : WF t) (hn : n ≠ 0) : WF (t.removeOne n) :=
+  removeOne_WF' t n h
+
+/-- removed nodes are neither reachable nor registered -/
+theorem removeChildren_gone (t : Tree) (n : NodeId) (x : T) (h : WF t) (hx : findT n t.root = some x) :
+    ∀ y ∈ T.flatL x.kids, y.id ∉ (T.flat (t.removeChildren n).root).map T.id ∧ y.id ∉ (t.removeChildren n).byId := by
+  intro y hy
+  have h' := removeChildren_WF t n h
+  have h1 : y.id ∉ (T.flat (t.removeChildren n).root).map T.id := by
+    rw [removeChildren_root]
+    have hp := remove_kids_ids_perm h.idsN hx
+    have hnd := hp.nodup_iff.2 h.ids
+    intro hm
+    exact (List.nodup_append.1 hnd).2.2 _ hm _ (mem_idsL.2 ⟨y, hy, rfl⟩) rfl
+  refine ⟨h1, fun hm => h1 ?_⟩
+  rw [ids_eq]
+  exact List.mem_cons_of_mem _ (h'.mem_byId.1 hm)
+
+/-- removed nodes are neither reachable nor registered -/
+theorem removeOne_gone (t : Tree) (n : NodeId) (x : T) (h : WF t) (hn : n ≠ 0) (hx : findT n t.root = some x) :
+    ∀ y ∈ T.flat x, y.id ∉ (T.flat (t.removeOne n).root).map T.id ∧ y.id ∉ (t.removeOne n).byId := by
+  intro y hy
+  have h' := removeOne_WF t n h hn
+  obtain ⟨par, hpar⟩ := findParent_of_findT hx (by rw [h.rootId]; exact hn)
+  obtain ⟨hp, hx1, hpar1⟩ := removeOne_setup h hx hpar
+  have h1 : y.id ∉ (T.flat (t.removeOne n).root).map T.id := by
+    rw [flat_eq, List.mem_cons] at hy
+    rcases hy with rfl | hy
+    · rw [removeOne_eq hx hp, unregister_root, findT_some_id hx]
+      have hp1 := remove_leaf_ids_perm (removeChildren_WF t n h).idsN hx1 rfl hpar1
+      rw [modT_id] at hp1
+      have hnd := hp1.nodup_iff.2 (removeChildren_WF t n h).ids
+      intro hm
+      exact (List.nodup_append.1 hnd).2.2 _ hm n (by simp) rfl
+    · intro hm
+      rw [removeOne_root hx hp] at hm
+      have := ids_modT_subset (fun _ _ h => idsL_eraseId_subset h) hm
+      rw [← removeChildren_root] at this
+      exact (removeChildren_gone t n x h hx y hy).1 this
+  refine ⟨h1, fun hm => h1 ?_⟩
+  rw [ids_eq]
+  exact List.mem_cons_of_mem _ (h'.mem_byId.1 hm)
+
+/-- Fresh is preserved by removals (ids only disappear) -/
+theorem remove_Fresh (t : Tree) (n next : NodeId) (hf : Fresh t next) :
+    Fresh (t.removeOne n) next ∧ Fresh (t.removeChildren n) next := by
+  refine ⟨⟨hf.1, fun x hx => ?_⟩, ⟨hf.1, fun x hx => ?_⟩⟩
+  · obtain ⟨y, hy, hyx⟩ := mem_ids.1 (ids_removeOne_subset (mem_ids.2 ⟨x, hx, rfl⟩))
+    rw [← hyx]; exact hf.2 y hy
+  · obtain ⟨y, hy, hyx⟩ := mem_ids.1 (ids_removeChildren_subset (mem_ids.2 ⟨x, hx, rfl⟩))
+    rw [← hyx]; exact hf.2 y hy
 
 end Nutree.C01
